@@ -39,6 +39,7 @@ type Result struct {
 // ReplayFile is the on-disk form of a violation (DESIGN appendix D).
 type ReplayFile struct {
 	Property string          `json:"property"`
+	World    string          `json:"world,omitempty"` // worker-side world key when it differs from the property id (C17a / C17b)
 	Clause   string          `json:"clause"`
 	Key      string          `json:"key"`
 	Seed     uint64          `json:"seed"`
